@@ -122,5 +122,3 @@ Fixpoint first_diff (a b : list Z) (i : nat) : option nat :=
 Definition digest (l : list Z) : Z * Z :=
   let '(a, b, _) := fold_left (fun '(a, b, i) v => (a + i * (v + 7), b + (v + 7) * (v + i), i + 1)) l (0, 0, 1)
   in (a, b).
-
-Definition pairs_flat (l : list (Z * Z)) : list Z := flat_map (fun p => [fst p; snd p]) l.
